@@ -19,7 +19,9 @@ Three exhaustive families of histories (bounds per tier in ``bounds()``):
 Layer alphabet: plain wrap, prefix "/p1", prefix "p2/", basic / token / client auth (as connection
 classes and as clone adapters), response post-processor, [prefix, post-processor] list, add_adapter
 (header adapter, basic-auth adapter), MCallerHttp with a component->prefix map (prefixes "/cmpA",
-"cmpB/", ""), clone(), clone(adapter), clone([a1, a2]), clone([a]), clone([]).  Tuples of adapters are
+"cmpB/", ""), clone(), clone(adapter), clone([a1, a2]), clone([a]), clone([]); and form "list*": the
+*same caller-owned list object* (and adapter objects) handed to every derivation of the history that
+uses it — HttpConn(c, adapters=COMMON) / caller.clone(COMMON) repeated on different parents.  Tuples of adapters are
 outside the statement ("one adapter or a list of adapters"): they are exercised as the last derivation
 of a history, counted, never judged.
 
@@ -70,6 +72,8 @@ REQUIRED_FEATURES = [
     "layer:prefix", "layer:basic", "layer:token", "layer:client", "layer:resp", "layer:hdr",
     "derive:wrap-none", "derive:wrap-single", "derive:wrap-list", "derive:add", "derive:caller",
     "derive:clone-none", "derive:clone-single", "derive:clone-list", "clone-list:two", "clone-list:one",
+    "derive:wrap-list*", "derive:clone-list*", "adapter-list-object-reused",
+    "adapter-list-object-reused:after-use-on-a-parent-with-adapters",
     "clone-list:empty", "entry:conn", "entry:wrapper", "entry:wrapper+component-prefix",
     "entry:wrapper+empty-prefix", "arg:params", "body:none", "body:str", "body:bytes", "body:json",
     "body:falsy", "hdr:caller", "hdr:content-type", "hdr:own-request-id", "raw-response",
@@ -94,6 +98,9 @@ BASIC = ["basic", "usr", "pw:é"]
 TOKEN = ["token", "tok123"]
 CLIENT = ["client", "cname", "cid", "csecret"]
 HDR = ["hdr", "X-Layer", "on"]
+RS = ["resp", "s"]
+COMMON_W = [PQ, RS]          # the layers of the shared list object used by wrap "list*"
+COMMON_C = [PC2, RS]         # ... and by clone "list*"
 AUTH_LAYER = {"basic": BASIC, "token": TOKEN, "client": CLIENT}
 
 VERBS = ["get", "post", "put", "delete", "patch"]
@@ -116,12 +123,10 @@ PROBE = [
     shape("post", "", data=DATAS[2]),
     shape("put", "/r/s", params=PARAMS[1], data=DATAS[3], headers=HEADERS[2]),
     shape("delete", "r/s", headers=HEADERS[1]),
-    shape("patch", "/r/s", data=DATAS[4]),
-    shape("post", "/r/s", data=DATAS[3], raw=True),
-    shape("post", "r/s", data=DATAS[5]),
+    shape("patch", "/r/s", data=DATAS[3], raw=True),
 ]
-CALLER_PROBE = [PROBE[4], PROBE[7]]
-PROBE_LIGHT = [PROBE[1], PROBE[4], PROBE[7]]
+CALLER_PROBE = [PROBE[4], PROBE[6]]
+PROBE_LIGHT = [PROBE[1], PROBE[4], PROBE[6]]
 CALLER_PROBE_LIGHT = [PROBE[4]]
 SEQ_SHAPES = [PROBE[0], PROBE[4], shape("post", "r/s", data=DATAS[3], headers=HEADERS[1])]
 CALLER_SEQ = [PROBE[0], PROBE[4]]
@@ -151,7 +156,8 @@ def bounds(tier):
     return {"H1_derivation_depth_per_root": t["H1"], "H0_family_depth_per_root": t["H0"],
             "H2_root_derivations_requests": t["H2"],
             "roots": {k: v["conn_data"] for k, v in ROOTS.items()},
-            "layers": [P1, P2, PQ, PC1, PC2, BASIC, TOKEN, CLIENT, HDR, ["resp", "<position>"]],
+            "layers": [P1, P2, PQ, PC1, PC2, BASIC, TOKEN, CLIENT, HDR, ["resp", "<position>"], RS],
+            "shared_adapter_list_objects": {"wrap list*": COMMON_W, "clone list*": COMMON_C},
             "component_prefixes": PREFIX_MAP,
             "probe_shapes": {"full": [len(PROBE), len(CALLER_PROBE)], "light": [len(PROBE_LIGHT), len(CALLER_PROBE_LIGHT)]},
             "full_shape_product": len(VERBS) * len(PATHS) * len(PARAMS) * len(DATAS) * len(HEADERS) * 2,
@@ -282,12 +288,13 @@ def _key(value):
 
 
 def made_by(op):
+    """Label of a derivation for signatures (a shared list object is still 'a list of adapters')."""
     if op[0] == "wrap":
-        return "wrap-" + op[3]
+        return "wrap-" + op[3].rstrip("*")
     if op[0] == "auth":
         return "auth-" + op[2]
     if op[0] == "clone":
-        return "clone-" + op[3]
+        return "clone-" + op[3].rstrip("*")
     return op[0]
 
 
@@ -305,6 +312,9 @@ class World:
         self.real = [root]
         self.fam = hm.Family(spec["address"], spec["ids"], PREFIX_MAP)
         self.objs = {}
+        self._chains = {}         # (node, component) -> (chain, features); dropped at every derivation
+        self.common = {}          # layers-key -> the one list object (of adapter objects) of this history
+        self.common_used_on_chain = set()
         self.passed = set()
         self.reused = False
         self.last_deriv = "root"
@@ -312,22 +322,43 @@ class World:
         self.feats = {"root:" + rootname}
 
     # ---- derivations ------------------------------------------------------------------------
+    def _adapters(self, op):
+        """Adapter objects for a wrap/clone op; form "list*" hands out the history's shared list object."""
+        layers, form = op[2], op[3]
+        if form != "list*":
+            return [mk_adapter(l) for l in layers]
+        key = jdump(layers)
+        if key in self.common:
+            self.feats.add("adapter-list-object-reused")
+            if key in self.common_used_on_chain:
+                self.feats.add("adapter-list-object-reused:after-use-on-a-parent-with-adapters")
+        else:
+            self.common[key] = [mk_adapter(l) for l in layers]
+        target = op[1]
+        tconn = self.fam.nodes[target]["conn"] if self.fam.nodes[target]["kind"] == "caller" else target
+        if self.fam.chain(tconn):
+            self.common_used_on_chain.add(key)
+        return self.common[key]
+
     def derive(self, op):
         """-> None | ("outside", text) | ("violation", class, text)"""
         kind = op[0]
         mb = made_by(op)
+        self._chains.clear()
         self.feats.add("derive:" + mb)
+        if len(op) > 3 and op[3] == "list*":
+            self.feats.add("derive:" + mb + "*")
         if kind == "clone" and op[3] == "list":
             self.feats.add("clone-list:" + {0: "empty", 1: "one"}.get(len(op[2]), "two"))
         try:
             if kind == "wrap":
                 _, t, layers, form = op
-                ads = [mk_adapter(l) for l in layers]
+                ads = self._adapters(op)
                 if form == "none":
                     new = [conn_http.HttpConn(self.real[t])]
                 elif form == "single":
                     new = [conn_http.HttpConn(self.real[t], adapters=ads[0])]
-                elif form == "list":
+                elif form in ("list", "list*"):
                     new = [conn_http.HttpConn(self.real[t], adapters=ads)]
                 else:
                     new = [conn_http.HttpConn(self.real[t], adapters=tuple(ads))]
@@ -347,12 +378,12 @@ class World:
                 new = [Caller(self.real[op[1]])]
             elif kind == "clone":
                 _, k, layers, form = op
-                ads = [mk_adapter(l) for l in layers]
+                ads = self._adapters(op)
                 if form == "none":
                     c = self.real[k].clone()
                 elif form == "single":
                     c = self.real[k].clone(ads[0])
-                elif form == "list":
+                elif form in ("list", "list*"):
                     c = self.real[k].clone(ads)
                 else:
                     c = self.real[k].clone(tuple(ads))
@@ -407,12 +438,30 @@ class World:
         fam = self.fam
         n = fam.nodes[node]
         comp = ENTRY_COMPONENT[entry] if entry != "conn" else None
-        chain = fam.chain(node, comp)
+        ck = (node, comp)
+        cached = self._chains.get(ck)
+        if cached is None:
+            chain = fam.chain(node, comp)
+            kinds = [l[0] for l in chain]
+            cf = {"layer:" + k for k in kinds}
+            if kinds.count("prefix") >= 2:
+                cf.add("chain:prefix-under-prefix")
+            if kinds.count("resp") >= 2:
+                cf.add("chain:resp-under-resp")
+            if fam.contributors(node, comp) >= 2:
+                cf.add("chain:2+contributors")
+            cf.add("entry:conn" if entry == "conn" else "entry:wrapper")
+            if comp is not None:
+                cf.add("entry:wrapper+component-prefix" if PREFIX_MAP[comp] else "entry:wrapper+empty-prefix")
+            cached = self._chains[ck] = (chain, cf)
+        chain, chain_feats = cached
         verb, path = shp["verb"], shp["path"]
         headers = self._obj("headers", shp["headers"])
         params = self._obj("params", shp["params"])
         data = self._obj("data", shp["data"]) if shp["data"][0] != "none" else None
-        snap = copy.deepcopy((headers, params, data))
+        snap = (None if headers is None else dict(headers),
+                None if params is None else copy.deepcopy(params),
+                copy.deepcopy(data) if isinstance(data, (dict, list)) else data)
         kw = {}
         if params is not None:
             kw["params"] = params
@@ -422,34 +471,10 @@ class World:
             kw["headers"] = headers
         if shp["raw"]:
             kw["raw_response"] = True
-        # features
+        # features (measured: what this request really exercised)
         f = self.feats
-        f.add("verb:" + verb)
-        f.add("entry:conn" if entry == "conn" else "entry:wrapper")
-        if comp is not None:
-            f.add("entry:wrapper+component-prefix" if PREFIX_MAP[comp] else "entry:wrapper+empty-prefix")
-        for l in chain:
-            f.add("layer:" + l[0])
-        kinds = [l[0] for l in chain]
-        if kinds.count("prefix") >= 2:
-            f.add("chain:prefix-under-prefix")
-        if kinds.count("resp") >= 2:
-            f.add("chain:resp-under-resp")
-        if fam.contributors(node, comp) >= 2:
-            f.add("chain:2+contributors")
-        if params is not None:
-            f.add("arg:params")
-        f.add("body:" + shp["data"][0])
-        if shp["data"][0] != "none" and not data:
-            f.add("body:falsy")
-        if headers is not None:
-            f.add("hdr:caller")
-            if "Content-Type" in headers:
-                f.add("hdr:content-type")
-            if "X-Request-ID" in headers:
-                f.add("hdr:own-request-id")
-        if shp["raw"]:
-            f.add("raw-response")
+        f |= chain_feats
+        f |= _shape_features(shp)
         if node != self.last_new and self.last_deriv != "root":
             f.add("reprobe-of-original")
         # the call
@@ -486,6 +511,31 @@ class World:
         return out
 
 
+_SHAPE_FEATS = {}
+
+
+def _shape_features(shp):
+    k = _SHAPE_FEATS.get(id(shp))
+    if k is None or k[0] is not shp:
+        f = {"verb:" + shp["verb"], "body:" + shp["data"][0]}
+        if shp["params"] is not None:
+            f.add("arg:params")
+        if shp["data"][0] != "none" and not shp["data"][1]:
+            f.add("body:falsy")
+        if shp["headers"] is not None:
+            f.add("hdr:caller")
+            if "Content-Type" in shp["headers"]:
+                f.add("hdr:content-type")
+            if "X-Request-ID" in shp["headers"]:
+                f.add("hdr:own-request-id")
+        if shp["raw"]:
+            f.add("raw-response")
+        if len(_SHAPE_FEATS) > 20000:
+            _SHAPE_FEATS.clear()
+        k = _SHAPE_FEATS[id(shp)] = (shp, f)
+    return k[1]
+
+
 def _normalise_ret(ret, raw_obj):
     if raw_obj is not None and ret is raw_obj:
         return "<raw-response>"
@@ -508,6 +558,7 @@ def derivation_choices(fam, pos, last, with_tuple=True):
             out.append(["wrap", t, [P2], "single"])
             out.append(["wrap", t, [tag], "single"])
             out.append(["wrap", t, [PQ, tag], "list"])
+            out.append(["wrap", t, COMMON_W, "list*"])
             auth = fam.has_auth(t)
             if not auth:
                 out.extend(["auth", t, k] for k in ("basic", "token", "client"))
@@ -524,6 +575,7 @@ def derivation_choices(fam, pos, last, with_tuple=True):
             out.append(["clone", t, [PC1], "single"])
             out.append(["clone", t, [tag], "single"])
             out.append(["clone", t, [PC2, tag], "list"])
+            out.append(["clone", t, COMMON_C, "list*"])
             out.append(["clone", t, [HDR], "list"])
             out.append(["clone", t, [], "list"])
             if not auth:
